@@ -75,6 +75,10 @@ def with_placeholders(w):
         d = cp(w)
         d[E] = E
         out.append(d)
+    # a placeholder (alone or wrapped in a small container, incl. `...` as a key with a plain
+    # value) at every position: replacement, extra element, extra value, extra key
+    for z in (E, Nil, {E: 1}, {E: E}, {E: Nil}, [E], {"a": E}, {"a": Nil}):
+        out += inject(w, z)
     return out
 
 
